@@ -20,7 +20,8 @@ def rev_ids(doc, body_only=True):
     return ids
 
 
-SESSION_AUTHOR = "Verifier"
+# a name that cannot occur in (or be completed from) the generated document words: the raw view shows it in metadata
+SESSION_AUTHOR = "Q7"
 
 
 def session_ids(in_doc, out_doc, author=SESSION_AUTHOR):
